@@ -203,6 +203,8 @@ class CloneUniverse(Universe):
             v.shape.set_denotation(c["i"], c["name"])
         elif op == "MetaPut":
             self.V(c["v"]).metadata_props[c["name"]] = "x"
+        elif op == "MetaInvalidate":
+            self.V(c["v"]).meta.invalidate(c["name"])
         elif op == "ValMetaPut":
             self.V(c["v"]).meta[c["name"]] = "x"
         elif op == "NodeMetaPut":
@@ -263,7 +265,7 @@ class CloneUniverse(Universe):
             for sg in self._subgraphs(n):
                 yield from self._all_nodes(sg)
 
-    VALUE_COLS = ("vProd", "vIdx", "vUses", "vGraph", "vIsIn", "vIsOut", "vIsInit", "vName", "vConst", "ty", "sh", "dn", "md", "mt")
+    VALUE_COLS = ("vProd", "vIdx", "vUses", "vGraph", "vIsIn", "vIsOut", "vIsInit", "vName", "vConst", "ty", "sh", "dn", "md", "mt", "mi")
     NODE_COLS = ("nIn", "nOut", "nGraph", "sub", "nmd", "nat")
     GRAPH_COLS = ("gNodes", "gIn", "gOut", "gInitK", "gInitV", "gmd")
 
@@ -301,6 +303,7 @@ class CloneUniverse(Universe):
         o["dn"] = [([] if v.shape is None else [(v.shape.get_denotation(i) or "") for i in range(len(v.shape))]) for v in self.values]
         o["md"] = [sorted(v.metadata_props) for v in self.values]
         o["mt"] = [sorted(v.meta) for v in self.values]
+        o["mi"] = [sorted(k for k in ("k1", "k2", "k3") if not v.meta.is_valid(k)) for v in self.values]
         o["nmd"] = [sorted(n.metadata_props) for n in self.nodes]
         o["nat"] = [sorted(k for k, a in n.attributes.items() if a.type not in (ir.AttributeType.GRAPH, ir.AttributeType.GRAPHS)) for n in self.nodes]
         o["gmd"] = [sorted(g.metadata_props) for g in self.graphs]
@@ -314,7 +317,7 @@ def obs_of_cs(cs: dict) -> dict:
     o["ty"] = list(cs["ty"])
     o["sh"] = [list(x) for x in cs["sh"]]
     o["dn"] = [list(x) for x in cs["dn"]]
-    for k in ("md", "mt", "nmd", "nat", "gmd"):
+    for k in ("md", "mt", "mi", "nmd", "nat", "gmd"):
         o[k] = [sorted(x) for x in cs[k]]
     return o
 
